@@ -17,6 +17,7 @@ Definitions only; the proofs are in Proof/DexLoad*.lean, the theorems in Props/C
 -/
 import AgVerif.Model.DexFile
 import AgVerif.Spec.DexFile
+import AgVerif.Spec.Tries
 namespace AgVerif.C05
 open AgVerif.DexFile AgVerif.LoadOrder
 open AgVerif.Spec.DexFile (ushort uint ULeb protoId fieldId methodId classDef typeListBody codeHdr EncClassData)
@@ -25,7 +26,7 @@ open AgVerif.Spec.DexFile (ushort uint ULeb protoId fieldId methodId classDef ty
 def At (file : Bytes) (off : Nat) (bs : Bytes) : Prop :=
   ∃ pre post, file = pre ++ bs ++ post ∧ pre.length = off
 
-/-- the raw tables of a DEX file (code items without tries), with the writer's encoding choices -/
+/-- the raw tables of a DEX file, with the writer's encoding choices -/
 structure Tables where
   strings : List (Bytes × Bytes)        -- (uleb128 item of utf16_size, MUTF-8 bytes without the NUL)
   stringIds : List Nat                  -- string_data_off
@@ -35,7 +36,8 @@ structure Tables where
   methodIds : List MethodId
   typeLists : List (List Nat × Bytes)    -- entries and the padding bytes that follow them
   classData : List (ClassData × Bytes)   -- content and an encoding of it (EncClassData)
-  codes : List (Code × Bytes)            -- code item and the padding bytes that follow it
+  codes : List (Code × Bytes)            -- code item (header, instructions) and the bytes that follow its
+                                         -- instructions: try items, handler list, alignment padding
   classDefs : List ClassDef
 
 structure Layout where
@@ -54,7 +56,18 @@ def mapEntryBytes (e : MapEntry) : Bytes :=
   ushort e.type ++ ushort 0 ++ uint e.size ++ uint e.offset
 
 def encCode (c : Code) : Bytes :=
-  codeHdr c.hdr.regs c.hdr.ins c.hdr.outs 0 c.hdr.debugOff c.hdr.insnsSize ++ c.insns
+  codeHdr c.hdr.regs c.hdr.ins c.hdr.outs c.hdr.tries c.hdr.debugOff c.hdr.insnsSize ++ c.insns
+
+/-- what follows the instructions of a code item (format document, as transcribed in
+    AgVerif.Spec.Tries): nothing when `tries_size` is 0; otherwise two bytes of padding after an
+    odd number of code units, `tries_size` try items, and the encoded_catch_handler_list — `size`
+    handlers, each with any valid LEB128 items, typed pairs and optional catch-all.  (Which handler
+    a try item points to is C08's subject; the loader of C05 only has to get past these bytes.) -/
+def CodeTail (c : Code) (tail : Bytes) : Prop :=
+  if c.hdr.tries = 0 then tail = [] else
+  ∃ (pad : Bytes) (p : Spec.Tries.Plan), tail = pad ++ p.bytes ∧
+    pad.length = (if c.hdr.insnsSize % 2 = 1 then 2 else 0) ∧ p.tries.length = c.hdr.tries ∧
+    p.listSize.WF ∧ p.listSize.val = p.handlers.length ∧ ∀ h ∈ p.handlers, h.WF
 
 /-! ### rows with their bytes -/
 
@@ -88,7 +101,8 @@ structure Encodes (file : Bytes) (L : Layout) (T : Tables) : Prop where
   cdEnc : ∀ c ∈ T.classData,
     EncClassData (c.1.sf.map fun f => (f.idx, f.flags)) (c.1.inf.map fun f => (f.idx, f.flags))
       (c.1.dm.map fun m => (m.idx, m.flags, m.codeOff)) (c.1.vm.map fun m => (m.idx, m.flags, m.codeOff)) c.2
-  codePad : ∀ p ∈ T.codes, p.2.length = (4 - (encCode p.1).length % 4) % 4
+  codeRest : ∀ p ∈ T.codes, ∃ tail pad, p.2 = tail ++ pad ∧ CodeTail p.1 tail ∧
+    pad.length = (4 - (encCode p.1 ++ tail).length % 4) % 4
   strings : Section file L 0x2002 T.strings.length (bytesOf T.strItems) false
   stringIds : Section file L 0x0001 T.stringIds.length (T.stringIds.flatMap uint) false
   typeIds : Section file L 0x0002 T.typeIds.length (T.typeIds.flatMap uint) true
@@ -204,7 +218,7 @@ def declared (T : Tables) (L : Layout) : DexV := ⟨T.strings.map (·.2), T.clas
 /-! ### well-formedness (decidable) -/
 
 def CodeOk (c : Code) : Prop :=
-  c.hdr.regs < 65536 ∧ c.hdr.ins < 65536 ∧ c.hdr.outs < 65536 ∧ c.hdr.tries = 0 ∧
+  c.hdr.regs < 65536 ∧ c.hdr.ins < 65536 ∧ c.hdr.outs < 65536 ∧ c.hdr.tries < 65536 ∧
   c.hdr.debugOff < 2 ^ 32 ∧ c.hdr.insnsSize < 2 ^ 32 ∧ c.insns.length = 2 * c.hdr.insnsSize
 
 def ClassDefOk (c : ClassDef) : Prop :=
